@@ -60,6 +60,7 @@ type Solver struct {
 	shadow    *Solver // second solver mirrored for cross-checking assertion verdicts
 	dom       *byteDom // small-domain shortcut for single-byte queries (bytedom.go)
 	preHook   func()   // run before every Assert/Check (model_zz_grpa_scaled.go)
+	desync    bool     // (shadow solver only) restarted mid-path: ignore until the next PathBegin (shadowtimeout.go)
 	tactic    string   // option solver_bv_tactic: try (check-sat-using …) first (solver_tactic.go)
 }
 
@@ -142,12 +143,15 @@ func (s *Solver) send(line string) {
 	}
 	io.WriteString(s.in, line)
 	io.WriteString(s.in, "\n")
-	if s.shadow != nil && !strings.HasPrefix(line, "(check-sat") && !strings.HasPrefix(line, "(get-value") && !strings.HasPrefix(line, "(set-option") {
-		s.shadow.send(line)
+	if s.shadow != nil && !s.shadow.desync && !strings.HasPrefix(line, "(check-sat") && !strings.HasPrefix(line, "(get-value") && !strings.HasPrefix(line, "(set-option") {
+		s.shadow.send(shadowLine(line))
 	}
 }
 
 func (s *Solver) PathBegin() {
+	if s.shadow != nil {
+		s.shadow.desync = false
+	}
 	s.send("(push 1)")
 	s.depth++
 	s.declared = map[string]bool{}
